@@ -332,7 +332,7 @@ func genRuleItems(t *rapid.T, kind string, v desc.V, mg *msgGen, maxRules int, w
 		case "required":
 			items = append(items, "required"+mg.next(t))
 		case "unknown":
-			items = append(items, rapid.SampledFrom([]string{"nosuch", "size=1~50", "Required", "len", "required2", "required_if=1", "existx"}).Draw(t, "unknownName"))
+			items = append(items, rapid.SampledFrom([]string{"nosuch", "size=1~50", "Required", "len", "required2", "required_if=1", "existx", "-", "-"}).Draw(t, "unknownName"))
 		case "malformed":
 			items = append(items, rapid.SampledFrom([]string{"to=5", "oto=1~2~3", "to=a~b", "in=1/2", "include=ab"}).Draw(t, "malformed"))
 		case "empty":
@@ -554,6 +554,8 @@ func (g *structGen) genStruct(depth int) (desc.T, desc.V) {
 			if rapid.IntRange(0, 3).Draw(g.t, "nonASCIIUnexp") == 0 {
 				f.Name = rapid.SampledFrom([]string{"é", "ω", "д", "ñ", "ǅ", "ǲ", "ǅ"}).Draw(g.t, "unexpPrefix") + f.Name // unexported, first letter outside ASCII (ǅ, ǲ: TITLE case is not upper case)
 			}
+		} else if rapid.IntRange(0, 15).Draw(g.t, "xxxName") == 9 {
+			f.Name = "XXX_" + strings.ToLower(f.Name) // exported, named like the bookkeeping fields of generated code
 		} else if rapid.IntRange(0, 11).Draw(g.t, "nonASCIIName") == 0 {
 			f.Name = []string{"É", "Ω", "Д", "Ñ"}[i%4] + strings.ToLower(f.Name) // exported: Go's rule is "upper-case letter", not A-Z
 		}
